@@ -21,7 +21,7 @@ ASSUMPTIONS = [
     'sensitivities of point-mass (pooled/heterogeneous) dimensions are only required to be consistent between the '
     'separate and the hierarchical return form and to equal the hierarchical derivative in the reduced form']
 REQUIRED = ['kind:gauss', 'kind:lognorm', 'kind:trunc', 'kind:pooled', 'kind:hetero', 'cov', 'comp', 'red',
-            'layout:matrix', 'layout:tensor', 'upstream', 'noncentered', 'oos', 'noncentered_zero_scale', 'reduced_part:all_fixed']
+            'layout:matrix', 'layout:tensor', 'upstream', 'noncentered', 'oos', 'noncentered_zero_scale', 'reduced_part:all_fixed', 'trunc_value_on_boundary']
 
 
 @st.composite
@@ -52,7 +52,16 @@ def _spec(draw):
     oos = None
     if pop['kind'] in ('gauss', 'lognorm', 'trunc') and pop.get('centered', True) and gen.chance(draw, 0.1):
         oos = draw(st.integers(0, n_dim - 1))
-    return dict(pop=pop, n_ids=n_ids, theta=theta, z=z, cov=cov, U=U, layout=layout, oos=oos, zero_scale=zero, nested_red=nested_red)
+    psi_zero = None
+    if popgen.has(pop, 'trunc') and oos is None and gen.chance(draw, 0.15):
+        d0_, cands_ = 0, []
+        for lf in popgen.leaves(pop):
+            if lf['kind'] == 'trunc':
+                cands_ += list(range(d0_, d0_ + lf['n_dim']))
+            d0_ += lf['n_dim']
+        psi_zero = [draw(st.integers(0, n_ids - 1)), cands_[draw(st.integers(0, len(cands_) - 1))]]
+    return dict(pop=pop, n_ids=n_ids, theta=theta, z=z, cov=cov, U=U, layout=layout, oos=oos, zero_scale=zero, nested_red=nested_red,
+                psi_zero=psi_zero)
 
 
 def strategy(tier):
@@ -73,6 +82,8 @@ def classify(spec):
         labs.append('upstream')
     if spec['oos'] is not None:
         labs.append('oos')
+    if spec.get('psi_zero'):
+        labs.append('trunc_value_on_boundary')
     if spec.get('zero_scale'):
         labs.append('noncentered_zero_scale')
     if spec.get('nested_red'):
@@ -125,6 +136,10 @@ def check(case):
         return
 
     x = popgen.x_from_z(pop, n_ids, theta, s['z'], cov)
+    if s.get('psi_zero'):
+        # an individual value exactly on the truncation point 0 (inside the support)
+        x = np.array(x, dtype=float)
+        x[s['psi_zero'][0], s['psi_zero'][1]] = 0.0
     if any(special):
         # Point-mass dimensions demand bit-wise equality with the dictated value; take that value
         # from chi's own transform (as HierarchicalLogLikelihood does) so that summation order in
@@ -281,6 +296,25 @@ def check(case):
 def _extra_clauses(case, m, pop, n_ids, theta, x, cov, special, want, kw):
     s = case.spec
     n_dim = ref.pop_n_dim(pop)
+    # ---- the same model behind a reduced wrapper in which nothing is fixed, parameters in the matrix layout
+    # (n_param_per_dim, n_dim) held as a transposed view (not C-ordered): the same numbers, the same results
+    if pop['kind'] in ref.ELEM and n_dim >= 2 and np.isfinite(want):
+        with case.clause('reduced_wrapper_matrix_layout'):
+            import chi
+            wrap = chi.ReducedPopulationModel(ref.build_pop(pop, None, n_ids))
+            wrap.set_n_ids(n_ids)
+            npd = ref.pop_per_dim(pop, n_ids)
+            mat_c = theta.reshape(npd, n_dim).copy()
+            mat_f = np.asfortranarray(mat_c)                  # same values, column-major memory
+            mat_t = np.ascontiguousarray(mat_c.T).T           # a transposed view
+            for label, th_m in (('C-ordered', mat_c), ('Fortran-ordered', mat_f), ('a transposed view', mat_t)):
+                case.close(wrap.compute_log_likelihood(th_m, x.copy()), want, rtol=1e-9,
+                           what='log-likelihood of the reduced wrapper, parameter matrix %s' % label)
+                out_w = wrap.compute_sensitivities(th_m, x.copy(), reduce=True)
+                out_m = m.compute_sensitivities(theta.copy(), x.copy(), reduce=True)
+                case.close(np.asarray(out_w[1], dtype=float), np.asarray(out_m[1], dtype=float), rtol=1e-12,
+                           what='reduced sensitivities of the reduced wrapper, parameter matrix %s' % label)
+
     # ---- the point mass has no width -------------------------------------------------------
     if any(special) and cov is None and np.isfinite(want):
         with case.clause('point_mass_strict'):
